@@ -399,7 +399,7 @@ pub fn run(ctx: &Ctx) -> i32 {
     finish(
         ctx,
         st,
-        "cases = a generated base program P (leaves tracked or not, all operations incl. custom ones, tracked()/untracked()/start/stop_tracking on leaves and results, one or several passes) and a byte string choosing the rewrites of its variant P': an observer clone taken when an array is created (results are read through it), any operand replaced by a temporary clone, a variable re-bound to its new result when the program no longer names the old one, each handle dropped right after its last use, the pass started from a clone of the root. Both are executed on corgi; metamorphic oracle: for every array of P, dimensions, values and the stored gradient (presence, dimensions, values) are bitwise identical in P and P', and inside P' a gradient is identical through every live clone of the same array. Non-trivial = at least one rewrite touches a node with fan-out >= 2 or a root, with at least one pass; distinct by (base structure, variant structure).",
+        "cases = a generated base program P (leaves tracked or not, all operations incl. custom ones, tracked()/untracked()/start/stop_tracking on leaves and results, one or several passes) and a byte string choosing the rewrites of its variant P': an observer clone taken when an array is created (results are read through it), any operand replaced by a temporary clone, a variable re-bound to its new result when the program no longer names the old one, each handle dropped right after its last use, the pass started from a clone of the root taken just before it or from the observer clone taken when the root was created (whatever start/stop_tracking the program has applied to its own handle since). Both are executed on corgi; metamorphic oracle: for every array of P, dimensions, values and the stored gradient (presence, dimensions, values) are bitwise identical in P and P', and inside P' a gradient is identical through every live clone of the same array. Non-trivial = at least one rewrite touches a node with fan-out >= 2 or a root, with at least one pass; distinct by (base structure, variant structure).",
         &["same operations in the same order on both sides, so no tolerance: bitwise comparison", "flags set on a handle after an observer clone was taken do not propagate to the observer (clones copy flags), which the statement requires"],
         json!({}),
     )
